@@ -18,7 +18,7 @@ BUFFERED_RUN_PREFIX = "<xs::nu::commands::append_command_buffered::AppendCommand
 
 def pf_body(run):
     for b in run.facts.bodies_under(PF):
-        if b.is_coroutine and q.live_calls(b, C.APPEND):
+        if b.is_coroutine and C.append_sites(run.facts, b):
             run.touch(b)
             return b
     return None
@@ -38,9 +38,16 @@ def prepass_covers(b, append_call, site_blocks):
     for n2 in nxts:
         if any(y[0] == "call" and q.same_call(y[1], n2) for y in walk(append_call.arg(1))):
             src2 = n2
+    is_vec_producer = lambda c: "collect" in c.fn or c.fn.startswith("alloc::vec::Vec::<T>::") or c.fn.startswith("alloc::vec::from_elem")
     if src2 is None:
-        return False
-    prod2 = [y[1] for y in walk(src2.arg(0)) if y[0] == "call" and ("collect" in y[1].fn or y[1].fn.startswith("alloc::vec::Vec::<T>::") or y[1].fn.startswith("alloc::vec::from_elem"))]
+        # the whole collection is handed to a batch publisher: the "second loop" is that call
+        if append_call.fn.startswith("xs::store::Store::") and "alloc::vec::Vec<xs::store::Frame" in append_call.body.local_tystr(q.root_local(b, append_call.args[1]) or 0):
+            src2 = append_call
+            prod2 = [y[1] for y in walk(append_call.arg(1)) if y[0] == "call" and is_vec_producer(y[1])]
+        else:
+            return False
+    else:
+        prod2 = [y[1] for y in walk(src2.arg(0)) if y[0] == "call" and is_vec_producer(y[1])]
     for n1 in nxts:
         if n1 is src2:
             continue
@@ -91,7 +98,7 @@ def r1(run):
     if b is None:
         run.missing(PF + "|body", "process_frame body (appending output frames) not found")
         return
-    appends = q.live_calls(b, C.APPEND)
+    appends = C.append_sites(run.facts, b)
     run.floor("Store::append sites in process_frame", len(appends), 1, b.sp)
     stamps = {}
     for (k, v, recv, c) in F.map_writes(b):
@@ -131,7 +138,7 @@ def r2(run):
     drains = output_drains(b)
     run.floor("drains of the output buffer", len(drains), 1, b.sp)
     # (emptying the buffer on the failure edge as well - and dropping what was taken - emits nothing: only appends and CAS writes count)
-    effects = [("append", c) for c in q.live_calls(b, C.APPEND)] + [("cas_insert", c) for c in q.live_calls(b, "xs::store::Store::cas_insert")]
+    effects = [("append", c) for c in C.append_sites(run.facts, b)] + [("cas_insert", c) for c in q.live_calls(b, "xs::store::Store::cas_insert")]
     for name, c in effects:
         run.ob(PF + "|after-success|%s" % name, bool(ok_edges) and q.dominated(b, c.bb, via_edges=ok_edges), c.sp,
                "%s happens only on the success edge of the closure evaluation" % name, reason="output-before-success")
@@ -139,7 +146,14 @@ def r2(run):
     err_rets = [bb for (bb, e, raw) in b.return_defs() if bb in b.live_blocks()
                 and any(x[0] == "call" and x[1].fn.endswith("from_residual") or (x[0] == "agg" and x[1].get("variant") == "Err") for x in [strip(o) for o in q.origins(e)])]
     run.floor("error returns of process_frame", len(err_rets), 2, b.sp)
-    for c in q.live_calls(b, C.APPEND):
+    emit_points = []
+    for c in C.append_sites(run.facts, b):
+        if c.fn == C.APPEND or C.is_batch_publish(run.facts, c):
+            emit_points.append(c)
+        else:
+            # a frame pushed into the vector of a batch publisher call is emitted by that call, not by the push
+            emit_points += [bc for pn in C.publisher_names(run.facts) if pn != C.APPEND for bc in q.live_calls(b, pn) if q.reaches(b, c.bb, bc.bb) and bc not in emit_points]
+    for c in emit_points:
         after = b.reach_after(c.bb)
         late = [b.blocks[bb]["term"]["sp"] for bb in err_rets if bb in after]
         run.ob(PF + "|no-failure-after-first-append", not late, c.sp,
@@ -305,7 +319,7 @@ def r4(run):
         okc = same and all(q.reaches(b, x.bb, y.bb) and not q.reaches(b, y.bb, x.bb) for x in p_buf for y in p_ret)
     # or appended one by one: the append of a buffered frame is never reachable from the append of the return frame
     if not okc:
-        aps = q.live_calls(b, C.APPEND)
+        aps = C.append_sites(run.facts, b)
         def _from(c, pred):
             return any(pred(y) for y in walk(c.arg(1)))
         a_buf = [c for c in aps if _from(c, lambda y: y[0] == "call" and y[1].fn in DRAIN_FNS)]
